@@ -38,7 +38,11 @@ ASSUMPTIONS = [
     "frames are abstract field lists (the frame <-> bytes relation is C01/C02); no repeating groups in session traffic",
     "application hooks return normally and do not call back into the connection (concurrent senders are C14); "
     "should_replay is a pure function of the journal row",
-    "SendingTime text is single-byte (Codec.current_datetime prints ASCII digits) - hypothesis Event.ok of the theorems",
+    "SendingTime text is single-byte (Codec.current_datetime prints ASCII digits) - hypothesis Event.ok of the theorems; "
+    "the REAL Codec.current_datetime() runs against a patched clock (asyncfix.codec.datetime) whose instants include "
+    "the last millisecond of a minute / hour / day with 499 / 500 / 999 us below it, standing still and stepping "
+    "backwards; the text it prints is what the model receives as Env.stamp (the date is fixed: calendar roll-overs are "
+    "not exercised)",
     "application sends are NEW messages (no hand-made SequenceReset / PossDupFlag=Y): hypothesis Event.ok; the excluded "
     "class is recorded as finding C05-app-own-number",
     "sequence numbers fit SQLite's 64-bit INTEGER (hypothesis nextOut <= sys.maxsize + 1 of the journal-content theorem)",
@@ -266,7 +270,7 @@ class Rig:
 
         impl = self.impl
         impl.cm.time = types.SimpleNamespace(time=lambda: impl.now_ms / 1000)
-        impl.Codec.current_datetime = staticmethod(lambda: S.stamp(impl.now_ms))
+        impl.codec_mod.datetime = impl.fake_datetime
 
     def load(self, start):
         """impl.load + (shared journal) rows and counters of the other sessions: below, at, just above and
@@ -460,7 +464,9 @@ def gen_history(rng, rig, max_len, own=True, d9=True, stats=None):
     rig.load(start)
     now, a, steps = S.T0, start, []
     for _ in range(rng.randint(max(1, max_len // 2), max_len)):
-        now += rng.choice([0, 125, 250, 1000, 1000, 3000, a.hb * 1000, a.hb * 2000 + 125])
+        # clock behaviours: standing still, small and large steps, beyond every timeout, a day ahead, BACKWARDS
+        now += rng.choice([0, 0, 125, 250, 1000, 1000, 3000, a.hb * 1000, a.hb * 2000 + 125, 86_400_000, -250, -5000])
+        now = max(now, 1_000_000)
         sr, ev, lab = gen_event(rng, a, now, own, d9, rig.cfg["restart"])
         before = impl.dump() if ev[0] == "restart" else None
         rig.apply(sr, ev)
